@@ -2,10 +2,11 @@
     Only theorem statements, each closed by [exact] of a lemma from Proofs/.
 
     Part 1 (failed reload changes nothing): holds for the model of the pinned code.
-    Part 2 (each request sees one configuration): REFUTED for the model of the pinned code, twice
-            ([C18_two_lock_window_refuted], [C18_per_request_reads_refuted]); the positive theorem
-            [C18_snapshot_design_atomic] is proved for the repair target (one snapshot per request,
-            one write per reload), and [C18_code_single_callback_atomic] says what IS atomic today.
+    Part 2 (each request sees one configuration): the reload side holds since /repo 337ce64
+            ([C18_reload_single_write]: every reachable state is all-old or all-new; [C18_code_single_read_atomic]);
+            the request side is REFUTED for the code as it is ([C18_per_request_reads_refuted]: several independent
+            locked reads per request - known finding); [C18_snapshot_design_atomic] is the repair target;
+            [C18_two_write_reload_has_window] is a statement about the pre-fix design only.
     Part 3 (file rewrites): [C18_replace_ok_sound] and companions - every syscall trace the checker accepts
             is crash-atomic; [C18_mutation_validated] - only validated bytes are installed and failures
             put the previous bytes back. *)
@@ -50,8 +51,8 @@ Theorem C18_reload_outcome_spec :
                                         /\ requires_restart c running = false /\ load_secrets c = Some a).
 Proof. exact reload_outcome_spec. Qed.
 
-(** A successful reload is the two critical sections (loadAuth's, then updateAll's) and returns the
-    configuration it compiled. *)
+(** A successful reload is ONE critical section that assigns all fourteen fields (authenticator half,
+    then table half) and returns the configuration it compiled. *)
 Theorem C18_reload_success :
   forall (bytes ast compiled authset : Type)
          (read_file : option bytes) (parse : bytes -> option ast) (compile : ast -> option compiled)
@@ -62,12 +63,13 @@ Theorem C18_reload_success :
       = (r', ret, Reloaded) ->
     exists d cfg a, read_file = Some d /\ parse d = Some cfg /\ compile cfg = Some ret /\
                     requires_restart ret running = false /\ load_secrets ret = Some a /\
+                    r' = write_reload compiled authset inherit a ret r /\
                     r' = write_tables compiled authset ret (write_auth compiled authset inherit a r).
 Proof. exact reload_success. Qed.
 
 (** Step-list reading: in ANY program whose fallible steps all precede its writes a failure exit is taken
     with no write performed; reloadConfig's step list is such a program, each of its five failure points
-    is reachable, and none of them has written anything. *)
+    is reachable, none of them has written anything, and success is ONE critical section for both groups. *)
 Theorem C18_frame_general : forall fails prog,
   fallible_first prog = true -> snd (exec fails prog) <> None -> fst (exec fails prog) = [].
 Proof. exact frame_general. Qed.
@@ -76,7 +78,7 @@ Theorem C18_reload_prog_frame :
   fallible_first reload_prog = true /\
   (forall fails p, snd (exec fails reload_prog) = Some p -> fst (exec fails reload_prog) = []) /\
   (forall p, exists fails, exec fails reload_prog = ([], Some p)) /\
-  exec (fun _ => false) reload_prog = ([WAuth; WTables], None).
+  exec (fun _ => false) reload_prog = ([[WAuth; WTables]], None).
 Proof.
   exact (conj reload_prog_fallible_first (conj reload_prog_frame (conj reload_prog_exits reload_prog_success))).
 Qed.
@@ -84,27 +86,50 @@ Qed.
 (** * Part 2 *)
 
 (** [no_mixture shape reqs] := for every number of reloads and every schedule, every request of [reqs]
-    reads one version.  Refuted for the pinned code, cause 1: reloadConfig publishes in two critical
-    sections.  The witness request performs ONE locked read (authorizePull). *)
-Theorem C18_two_lock_window_refuted :
-  ~ no_mixture code_shape [[CAuthorizePull]]
-  /\ observations code_shape 1 [[CAuthorizePull]] [AReload; AReq 0; AReload]
-     = [[(CAuthorizePull, FPullAuth, 1); (CAuthorizePull, FPullByRoute, 1); (CAuthorizePull, FPathToRoute, 0)]]
-  /\ P_no_mixture (observations code_shape 1 [ingress_request] ([AReload] ++ repeat (AReq 0) 8 ++ [AReload])) = false.
-Proof. exact (conj two_lock_window_refuted (conj two_lock_window_witness two_lock_window_ingress_refuted)). Qed.
+    reads one version.
 
-(** Cause 2: a request performs several independent locked reads.  The witness reload is ONE write of
-    every field.  Ingress (every position inside the request), pull and admin requests. *)
+    The reload side (since /repo 337ce64): reloadConfig publishes in ONE critical section.  For every number
+    of reloads, every set of requests and every schedule, the runtime state a request step can read is
+    [uniform v] - all fourteen fields from the same configuration, v = 0 (start-up) or the v-th reload.
+    No state between the two halves of a reload is reachable. *)
+Theorem C18_reload_single_write : forall n reqs sched,
+  exists v, v <= n /\ s_rt (run_schedule code_shape n reqs sched) = uniform v.
+Proof. exact reload_single_write. Qed.
+
+(** Hence every handler that consults the state ONCE - whichever fields it reads, also across the two
+    groups (authorizePull, authorizeWorker) - is served under one configuration, for all schedules. *)
+Theorem C18_code_single_read_atomic : forall reqs,
+  (forall r, In r reqs -> length r <= 1) ->
+  forall n sched, P_no_mixture (observations code_shape n reqs sched) = true.
+Proof. exact code_single_read_atomic. Qed.
+
+(** About the design BEFORE 337ce64 only (two critical sections: loadAuth's, then updateAll's) - a
+    hypothetical reload shape, not the code: it has a window in which even a request of ONE locked read
+    sees two versions; the same schedules are harmless for the code as it is. *)
+Theorem C18_two_write_reload_has_window :
+  ~ no_mixture two_write_shape [[CAuthorizePull]]
+  /\ observations two_write_shape 1 [[CAuthorizePull]] [AReload; AReq 0; AReload]
+     = [[(CAuthorizePull, FPullAuth, 1); (CAuthorizePull, FPullByRoute, 1); (CAuthorizePull, FPathToRoute, 0)]]
+  /\ P_no_mixture (observations two_write_shape 1 [ingress_request] ([AReload] ++ repeat (AReq 0) 8 ++ [AReload])) = false
+  /\ P_no_mixture (observations code_shape 1 [[CAuthorizePull]] [AReload; AReq 0; AReload]) = true
+  /\ P_no_mixture (observations code_shape 1 [ingress_request] ([AReload] ++ repeat (AReq 0) 8 ++ [AReload])) = true.
+Proof.
+  exact (conj two_write_reload_has_window (conj two_write_window_witness (conj two_write_window_ingress
+        (conj (proj1 code_window_schedules_fine) (proj2 code_window_schedules_fine))))).
+Qed.
+
+(** The request side, REFUTED for the code as it is: a request performs several independent locked reads.
+    Ingress (every position inside the request), pull and admin requests. *)
 Theorem C18_per_request_reads_refuted :
-  ~ no_mixture single_write_shape [ingress_request]
-  /\ map versions_seen (observations single_write_shape 1 [ingress_request]
+  ~ no_mixture code_shape [ingress_request]
+  /\ map versions_seen (observations code_shape 1 [ingress_request]
                                      ([AReq 0] ++ [AReload] ++ repeat (AReq 0) 7))
      = [[0; 1; 1; 1; 1; 1; 1; 1; 1]]
-  /\ forallb (fun k => negb (P_no_mixture (observations single_write_shape 1 [ingress_request]
+  /\ forallb (fun k => negb (P_no_mixture (observations code_shape 1 [ingress_request]
                                               (repeat (AReq 0) k ++ [AReload] ++ repeat (AReq 0) (8 - k)))))
              [1; 2; 3; 4; 5; 6; 7] = true
-  /\ ~ no_mixture single_write_shape [pull_request]
-  /\ ~ no_mixture single_write_shape [admin_publish_request].
+  /\ ~ no_mixture code_shape [pull_request]
+  /\ ~ no_mixture code_shape [admin_publish_request].
 Proof.
   exact (conj per_request_reads_refuted (conj per_request_reads_witness (conj per_request_reads_every_position
         (conj per_request_reads_pull_refuted per_request_reads_admin_refuted)))).
@@ -114,8 +139,8 @@ Theorem C18_code_no_mixture_refuted : ~ no_mixture code_shape [ingress_request; 
 Proof. exact code_no_mixture_refuted. Qed.
 
 (** The repair target: if a reload is ONE critical section [w] that assigns every field any handler
-    reads, and every request performs at most ONE locked read, then for all numbers of reloads, all
-    sets of requests and all schedules every request is served under one version. *)
+    reads (true of the code now), and every request performs at most ONE locked read (not yet), then for all
+    numbers of reloads, all sets of requests and all schedules every request is served under one version. *)
 Theorem C18_snapshot_design_atomic : forall (w : list field) (reqs : list request),
   (forall r c f, In r reqs -> In c r -> In f (fields_of c) -> In f w) ->
   (forall r, In r reqs -> length r <= 1) ->
@@ -125,13 +150,6 @@ Proof. exact snapshot_design_atomic. Qed.
 Theorem C18_snapshot_requests_atomic : forall k n sched,
   P_no_mixture (observations single_write_shape n (repeat [CSnapshot] k) sched) = true.
 Proof. exact snapshot_requests_atomic. Qed.
-
-(** What is atomic on the pinned code: handlers that consult the state once, inside one group of fields
-    (admin authorisation; any one authenticator / route-table lookup). *)
-Theorem C18_code_single_callback_atomic : forall reqs,
-  (forall r, In r reqs -> exists c, r = [c] /\ single_group_callback c = true) ->
-  forall n sched, P_no_mixture (observations code_shape n reqs sched) = true.
-Proof. exact code_single_callback_atomic. Qed.
 
 (** The monitor predicate means what it says. *)
 Theorem C18_one_version_spec : forall o : obs,
@@ -210,12 +228,13 @@ Print Assumptions C18_reload_outcome_spec.
 Print Assumptions C18_reload_success.
 Print Assumptions C18_frame_general.
 Print Assumptions C18_reload_prog_frame.
-Print Assumptions C18_two_lock_window_refuted.
+Print Assumptions C18_reload_single_write.
+Print Assumptions C18_code_single_read_atomic.
+Print Assumptions C18_two_write_reload_has_window.
 Print Assumptions C18_per_request_reads_refuted.
 Print Assumptions C18_code_no_mixture_refuted.
 Print Assumptions C18_snapshot_design_atomic.
 Print Assumptions C18_snapshot_requests_atomic.
-Print Assumptions C18_code_single_callback_atomic.
 Print Assumptions C18_one_version_spec.
 Print Assumptions C18_replace_ok_sound.
 Print Assumptions C18_replace_ok_durable.
